@@ -32,7 +32,7 @@ SHARD_WATCHDOG = {"quick": 1500, "thorough": 10800}
 
 
 def gen_cases(tier, seed):
-    n = 64 if tier == "quick" else 1600
+    n = 160 if tier == "quick" else 12000
     return [{"i": i, "seed": seed} for i in range(n)]
 
 
